@@ -237,7 +237,47 @@ pub fn run(tier: Tier) -> i32 {
             st.sample(json!({"feature.def": fdef, "right-id.def": rt.render(), "left-id.def": lt.render()}));
         }
     });
-    rep.rule = "state = (bigram template set from 3 templates incl. optional references, right-id and left-id tables from a 10-table menu (incl. features containing a slash) (plain, 4 ids, without id 0, id 0 not BOS/EOS, gap, malformed line, unordered, '*' feature), subset of a 14-line model.def menu (incl. BOS/EOS lines) (positive, negative, rounds to zero, unmatched, unigram line, line with a third '/' part, bare-template lines), cost factor 100/700); accepted conversions are compiled with a probe lexicon and every non-zero id pair's connection cost is compared with the sum over applicable templates of -trunc(weight x factor) of the line whose text is left expansion '/' right expansion; malformed tables must give Err; distinct = distinct (tables, templates, lines, outcome)".into();
+    // malformed id lines: every shape of a menu at every line position of either table
+    let mut st = st;
+    {
+        let good = ["0 BOS/EOS,*", "1 N,x", "2 V,*"];
+        let bad = ["two", "+2 V,b", "-2 V,b", "x2 V,b", " 2 V,b", "2\tV,b", "2", "2V,b", "0x2 V,b", "\u{FF12} V,b", "2,V,b", "+0 BOS/EOS,*", "1.0 N,x", "", " "];
+        let fdef = "UNIGRAM U:%F[0]\nBIGRAM B0:%L[0]/%R[0]\n";
+        let model = "1.5\tB0:N/V\n";
+        for b in bad {
+            for pos in 0..=good.len() {
+                for side in 0..2 {
+                    let mut lines: Vec<&str> = good.to_vec();
+                    lines.insert(pos, b);
+                    let bad_table = format!("{}\n", lines.join("\n"));
+                    let good_table = format!("{}\n", good.join("\n"));
+                    let (r, l) = if side == 0 { (bad_table.clone(), good_table.clone()) } else { (good_table.clone(), bad_table.clone()) };
+                    // an empty line at the very end is only a final newline
+                    if b.is_empty() && pos == good.len() {
+                        continue;
+                    }
+                    st.states += 1;
+                    st.transitions += 1;
+                    st.count("malformed_id_lines");
+                    let (mut br, mut bl, mut bc) = (vec![], vec![], vec![]);
+                    let res = guard(|| generate_bigram_info(fdef.as_bytes(), r.as_bytes(), l.as_bytes(), model.as_bytes(), 100.0, &mut br, &mut bl, &mut bc));
+                    let class = match &res {
+                        Err(p) => format!("Panic@{}", panic_site(p)),
+                        Ok(Err(_)) => "Err".to_string(),
+                        Ok(Ok(())) => "Ok".to_string(),
+                    };
+                    if class != "Err" {
+                        st.violation(Finding {
+                            class: format!("malformed-id-line-{class}"),
+                            what: format!("id table with the malformed line {:?} at position {pos} of the {} table: expected Err, got {class}", b, if side == 0 { "right" } else { "left" }),
+                            replay: json!({"kind": "mecab_model", "feature.def": fdef, "right-id.def": r, "left-id.def": l, "model.def": model, "cost_factor": 100.0}),
+                        });
+                    }
+                }
+            }
+        }
+    }
+    rep.rule = "state = (bigram template set from 3 templates incl. optional references, right-id and left-id tables from a 10-table menu (incl. features containing a slash) (plain, 4 ids, without id 0, id 0 not BOS/EOS, gap, malformed line, unordered, '*' feature), subset of a 14-line model.def menu (incl. BOS/EOS lines) (positive, negative, rounds to zero, unmatched, unigram line, line with a third '/' part, bare-template lines), cost factor 100/700); accepted conversions are compiled with a probe lexicon and every non-zero id pair's connection cost is compared with the sum over applicable templates of -trunc(weight x factor) of the line whose text is left expansion '/' right expansion; malformed tables must give Err, and so must 15 malformed id-line shapes (sign-prefixed, non-ASCII digit, missing space, tab, empty...) at every line position of either table; distinct = distinct (tables, templates, lines, outcome)".into();
     rep.bounds = json!({"id_tables": tables.len(), "template_sets": tsets.len(), "model_line_subsets": nmask});
-    rep.finish(st, &["malformed_id_tables", "conversions_accepted", "id_pairs_with_nonzero_cost"])
+    rep.finish(st, &["malformed_id_tables", "malformed_id_lines", "conversions_accepted", "id_pairs_with_nonzero_cost"])
 }
